@@ -3,6 +3,7 @@ package recw
 
 import (
 	"errors"
+	"io"
 	"runtime"
 	"sync/atomic"
 )
@@ -43,7 +44,20 @@ func (w *Writer) Write(p []byte) (int, error) {
 	}
 	w.inflight.Add(-1)
 	if w.FailEvery > 0 && (i+1)%int64(w.FailEvery) == 0 {
-		return len(p) / 2, errShort
+		// the ways a destination can come up short: its own error, the standard io.ErrShortWrite, nothing
+		// accepted at all, a short count without an error, all but the last byte
+		switch (i + 1) / int64(w.FailEvery) % 5 {
+		case 0:
+			return len(p) / 2, errShort
+		case 1:
+			return len(p) / 2, io.ErrShortWrite
+		case 2:
+			return 0, io.ErrShortWrite
+		case 3:
+			return len(p) / 2, nil
+		default:
+			return len(p) - 1, io.ErrShortWrite
+		}
 	}
 	return len(p), nil
 }
